@@ -149,6 +149,7 @@ fn crafted(i: u64) -> Case {
         chans: (0..channels).map(|c| ChanSpec { segs: vec![Seg { class: classes[((i + c as u64) % 6) as usize], amp: 3, p: 1000 + i as u32 }, Seg { class: classes[((i + 3) % 6) as usize], amp: 1, p: 7 }] }).collect(),
         rel: (i % 5) as u8,
         seed: i,
+        explicit: None,
     };
     Case { base: StreamCase { cfg, inp, entry: Entry::Single, src: SrcKind::Mem }, extra_meta: i % 2 == 1, precompute: i % 4 >= 2 }
 }
